@@ -17,6 +17,13 @@
 (*   [k |-> kind, v |-> sequence of chunks (sequences of indices), n |-> int]*)
 (*   read/readline: k = "b", one chunk      readlines: k = "l", chunk/line  *)
 (*   seek: k = "z" (return value not specified, see D4)   tell: k = "t", n  *)
+(* API variants with the same meaning are not separate actions: next() and *)
+(* next(iter(member), b'') are readline(); readlines(0 / -1 / None) is     *)
+(* readlines(); seek(off) is seek(off, 0); keyword forms -- the harness     *)
+(* rotates through them for the same abstract call.  Separate actions:     *)
+(* AReadLinesHint (advisory hint, several outcomes allowed) and AIter      *)
+(* (list(member): all lines; the deviation IterSingleLine is a named,      *)
+(* switchable outcome, see harness/props/c06.py).                          *)
 (*                                                                         *)
 (* The B* operators are pure (no variables) and are re-used by ArMember    *)
 (* and TraceArMember.  Domain decisions (DESIGN.md D4): read() = read(n<0) *)
@@ -32,6 +39,8 @@ CONSTANTS Bytes,        \* byte values a data cell may hold (model: {10, 120})
           RdSizes,      \* arguments n >= 1 of read(n) (n = -1 is always explored)
           RlSizes,      \* arguments n >= 0 of readline(n) (n = -1 is always explored)
           SeekMax,      \* seek targets 0..SeekMax (closes the state space)
+          Hints,        \* arguments h >= 1 of readlines(h) ({}: action not explored)
+          IterSingleLine, \* TRUE: the known deviation of list(member) / `for line in member` is allowed
           Ops,          \* FALSE: only the index (Open) is explored
           Emit          \* TRUE: print one EDGE / INDEX line per evaluated action instance
 
@@ -66,6 +75,9 @@ Span(p, n) == [j \in 1..n |-> p + j]
 RECURSIVE BLineSpans(_, _)
 BLineSpans(d, p) == LET n == BLineLen(d, p, -1)
                     IN IF n = 0 THEN <<>> ELSE <<Span(p, n)>> \o BLineSpans(d, p + n)
+\* total length of the first k chunks
+RECURSIVE TakeLen(_, _)
+TakeLen(sp, k) == IF k = 0 THEN 0 ELSE Len(sp[k]) + TakeLen(sp, k - 1)
 \* seek(off, whence) target
 BSeekTarget(d, p, off, wh) == CASE wh = 0 -> off [] wh = 1 -> p + off [] wh = 2 -> Len(d) + off
 
@@ -114,6 +126,22 @@ AReadLine(m)     == ARl(m, -1) /\ Edge("readline", m, <<>>)          \* readline
 AReadLineN(m, n) == ARl(m, n)  /\ Edge("readlinen", m, <<n>>)        \* readline(n)
 AReadLines(m)    == /\ ACall(m, Res("l", BLineSpans(D(m), pos[m]), 0), pos[m] + BAvail(D(m), pos[m]))
                     /\ Edge("readlines", m, <<>>)
+\* readlines(h), h >= 1: complete lines from the position; the hint is advisory -- io.BytesIO stops
+\* once the total length reaches h, ArMember ignores it: any number k of lines is allowed that
+\* either reaches the hint or the end of the data (h <= 0 / None mean readlines(): AReadLines)
+AReadLinesHint(m, h, k) ==
+    LET sp == BLineSpans(D(m), pos[m]) IN
+    /\ h >= 1 /\ k \in 0..Len(sp)
+    /\ (k = Len(sp) \/ TakeLen(sp, k) >= h)
+    /\ ACall(m, Res("l", SubSeq(sp, 1, k), 0), pos[m] + TakeLen(sp, k))
+    /\ Edge("readlinesh", m, <<h, k>>)
+\* list(member) / a complete `for line in member`: every remaining line, like readlines().
+\* Known deviation (reported; enabled only by IterSingleLine): ArMember.__iter__ yields ONE line.
+AIter(m, k) ==
+    LET sp == BLineSpans(D(m), pos[m]) IN
+    /\ k = Len(sp) \/ (IterSingleLine /\ k = Lo(1, Len(sp)))
+    /\ ACall(m, Res("l", SubSeq(sp, 1, k), 0), pos[m] + TakeLen(sp, k))
+    /\ Edge("iter", m, <<k>>)
 ASeek(m, off, wh) == LET t == BSeekTarget(D(m), pos[m], off, wh)
                      IN /\ t \in 0..SeekMax
                         /\ ACall(m, Res("z", <<>>, 0), t)
@@ -126,6 +154,8 @@ RNext == \/ AOpen
               \/ \E n \in RdSizes \cup {-1} : AReadN(m, n)
               \/ \E n \in RlSizes \cup {-1} : AReadLineN(m, n)
               \/ \E wh \in 0..2, off \in (0 - SeekMax)..SeekMax : ASeek(m, off, wh)
+              \/ \E h \in Hints, k \in 0..(MaxData + 1) : AReadLinesHint(m, h, k)
+              \/ \E k \in 0..(MaxData + 1) : AIter(m, k)
 
 RSpec == RInit /\ [][RNext]_rvars
 RView == <<mem, opened, pos>>       \* aidx, aret, am are outputs: no action reads them
